@@ -45,7 +45,7 @@ ASSUMPTIONS = [
 REACH = {t: ["versions_11", "enq_accepted", "enq_busy_then_ok", "enq_busy_exhausted", "enq_refused", "conf_success",
              "conf_fail", "conf_none", "conf_duplicate", "conf_other_tag", "conf_other_dest", "conf_unsolicited",
              "conf_before_reply", "conf_late", "setup_overlap_attempted", "kind_mcast", "kind_bcast", "kind_ieee",
-             "kind_uni_sr_et", "v14_layout", "pending_empty_checked", "status_family_swept", "conf_foreign_of_every_message_type"] for t in ("quick", "thorough")}
+             "kind_uni_sr_et", "v14_layout", "pending_empty_checked", "status_family_swept", "conf_foreign_of_every_message_type", "disconnect_while_awaiting_confirmation"] for t in ("quick", "thorough")}
 SHARD_TIMEOUT = {"quick": 900, "thorough": 3600}
 
 ENQ = ["ok", "busy_max", "busy_net", "busy_buf", "ref_call", "ref_down", "ref_undef"]
@@ -438,8 +438,58 @@ def run_shard(desc) -> Acc:
                 acc.sample({"case": c2, "outcomes": [(r["kind"], r["enq"], r["conf"], r["outcome"]) for r in reqs],
                             "ncp_saw": hist[:30]})
 
+    async def main_disconnect(loop):
+        """Last act of the shard: the application is disconnected (link loss, shutdown, reconnect) while
+        accepted unicasts are still waiting for their confirmations.  Nobody cancelled the senders: each
+        ends with the timeout / delivery error the property names, never with a CancelledError of its own."""
+        ap = await appharness.started_app(loop, V, acc, "C12")
+        app, ncp = ap.app, ap.ncp
+        own = int(app.state.node_info.nwk)
+        for nm in SENDS:
+            ncp.handlers[nm] = lambda n, a: [ST["ok"], 0x11]
+        outcomes = []
+
+        async def one(i):
+            pkt = zt.ZigbeePacket(
+                src=zt.AddrModeAddress(addr_mode=zt.AddrMode.NWK, address=zt.NWK(own)), src_ep=1,
+                dst=zt.AddrModeAddress(addr_mode=zt.AddrMode.NWK, address=zt.NWK(0x6000 + i)), dst_ep=1, tsn=40 + i, profile_id=0x0104,
+                cluster_id=6, data=zt.SerializableBytes(b"bye%d" % i), tx_options=zt.TransmitOptions.ACK, radius=5)
+            try:
+                await app.send_packet(pkt)
+                outcomes.append("ret")
+            except zigpy.exceptions.DeliveryError:
+                outcomes.append("DeliveryError")
+            except asyncio.TimeoutError:
+                outcomes.append("TimeoutError")
+            except asyncio.CancelledError:
+                outcomes.append("CancelledError")
+            except BaseException as ex:  # noqa: BLE001
+                outcomes.append(type(ex).__name__)
+
+        tasks = [asyncio.ensure_future(one(i)) for i in range(3)]
+        await asyncio.sleep(1.0)
+        acc.case()
+        case = {"version": V, "reqs": "three accepted unicasts awaiting confirmation", "then": "disconnect()"}
+        try:
+            await app.disconnect()
+        except BaseException as ex:  # noqa: BLE001
+            acc.violation("C12/disconnect/raised", f"disconnect() raised {ex!r}", case)
+        await asyncio.wait(tasks, timeout=APS_T + 30)
+        for t_ in tasks:
+            if not t_.done():
+                t_.cancel()
+        if any(o in ("CancelledError", "ret") for o in outcomes) or len(outcomes) != 3:
+            acc.violation("C12/outcome/unconfirmed-send-ended-by-disconnect-as-" + (outcomes + ["pending"])[0],
+                          f"unicasts that were accepted but never confirmed ended with {outcomes} after disconnect(); nobody cancelled "
+                          "their callers and no confirmation arrived", case)
+        else:
+            acc.hit("disconnect_while_awaiting_confirmation")
+        acc.nontrivial((V, "disconnect-during-pending"))
+
     try:
         vloop.run(main)
+        if desc["k"] == 0:
+            vloop.run(main_disconnect)
     except ncpsim.BringUpFailed:
         pass
     acc.ev("distinct_refusal_or_failure_status_codes", len(codes_seen))
